@@ -13,6 +13,26 @@ EVIDENCE = dict(
                 "trace validation.")
 
 
+def apalache_inductive(ctx):
+    """Supplementary, not load-bearing: Consistent as an inductive invariant of connect/disconnect (Apalache, symbolic),
+    for tables of any length up to the Gen bound instead of TLC's state constraint.  Recorded in the evidence only."""
+    import os
+    import subprocess
+    import time
+    spec = os.path.join(os.path.dirname(links.tlc.SPEC_DIR), "spec", "apalache", "APA_RVLinks.tla")
+    t0 = time.time()
+    try:
+        p = subprocess.run(["apalache-mc", "check", "--init=IndInit", "--inv=IndInv", "--length=1",
+                            "--out-dir=" + os.path.join(ctx.work, "apalache"), spec],
+                           stdout=subprocess.PIPE, stderr=subprocess.STDOUT, text=True, timeout=1200, cwd=ctx.work)
+        ok = "EXITCODE: OK" in p.stdout
+        note = "inductive step IndInit /\\ Next => IndInv' checked" if ok else p.stdout[-300:]
+    except Exception as e:       # tool missing / timeout: nothing is claimed
+        ok, note = False, "not run: %r" % (e,)
+    ctx.cov["apalache_inductive_consistent"] = {"ok": ok, "wall_s": round(time.time() - t0, 1), "note": note,
+                                                "claim": "supplementary; TLC's exhaustive model is the claimed check"}
+
+
 def run(ctx):
     rnd = ctx.rnd
     q = ctx.quick
@@ -24,6 +44,8 @@ def run(ctx):
     else:
         links.graph_replay(ctx, 3, 2, "lists", 24, ["ConsistentNow"], "C07", timeout=3000)      # 58.6 M transitions explored, 1/24 replayed
         links.graph_replay(ctx, 4, 1, "pairs", 2, ["ConsistentNow", "RTCanonical", "RTNever"], "C07", timeout=3000)
+    if not q:
+        apalache_inductive(ctx)
     # ---- mode B: random histories, batch trace validation
     classes = links.simple_classes()
     traces = []
